@@ -1095,6 +1095,9 @@ class VecTr(Tr):
         f = node.func
         fname = ast.unparse(f)
         self.inplace_guard(node, env)
+        for k_ in node.keywords:
+            if k_.arg == "out" and ast.unparse(k_.value) not in (["out"] + list(self.spec.get("out_ok", []))):
+                raise Untranslatable("out=%s: only the function's own out parameter may receive a result" % ast.unparse(k_.value)[:40])
         kw = {k.arg: k.value for k in node.keywords}
         args = node.args
         if fname in ("torch.matmul", "torch.mv", "torch.dot") and len(args) == 2 and set(kw) <= {"out"}:
@@ -1663,6 +1666,14 @@ def _sensitive(node):
 
 def extract_fit_skeleton(fn):
     """the five item lists of Skeleton.skel, as Coq text; fail-closed"""
+    for nm in ("callbacks", "optimizer", "data_iterator"):
+        sites = [n for n in ast.walk(fn) if isinstance(n, ast.Name) and isinstance(n.ctx, (ast.Store, ast.Del)) and n.id == nm]
+        top = [st for st in fn.body if isinstance(st, ast.Assign) and any(isinstance(t_, ast.Name) and t_.id == nm for t_ in st.targets)]
+        if nm != "data_iterator" and (len(sites) != 1 or len(top) != 1):
+            raise Untranslatable("%s is bound %d times in fit (once, at the top level, is the skeleton's set-up)" % (nm, len(sites)))
+        if nm == "data_iterator" and (len(sites) != 1 or not any(
+                isinstance(n, ast.Assign) and ast.unparse(n.targets[0]) == nm and isinstance(n.value, ast.Call) and ast.unparse(n.value.func) == "self._shuffle_data" for n in ast.walk(fn))):
+            raise Untranslatable("data_iterator is not bound once to self._shuffle_data(...)")
     def items_of(stmts, ep, b, where):
         out, loops = [], []
         for st in stmts:
@@ -1699,9 +1710,7 @@ def extract_fit_skeleton(fn):
                 continue
             if not _sensitive(st):
                 continue
-            if (isinstance(st, ast.If) and not st.orelse and len(st.body) == 1 and isinstance(st.body[0], ast.Raise)
-                    and not _sensitive(st.test) and ep is None and all(x == "IReturnIfStop" for x in out)):
-                continue                      # argument validation before anything observable happens
+            # (no exemption for `if <test>: raise` validation: the skeleton machine has no refusing runs, and fit has none at HEAD)
             # set-up statements that mention the sensitive names but emit nothing
             ok = False
             for pat in SETUP_PATTERNS:
@@ -1742,7 +1751,8 @@ def extract_fit_skeleton(fn):
         raise Untranslatable("batch loop with else")
     it = bloop.iter
     if isinstance(bloop.target, ast.Tuple) and len(bloop.target.elts) == 2 and isinstance(bloop.target.elts[0], ast.Name) \
-            and isinstance(it, ast.Call) and ast.unparse(it.func) == "enumerate" and len(it.args) == 1 and not it.keywords:
+            and isinstance(it, ast.Call) and ast.unparse(it.func) == "enumerate" and len(it.args) == 1 and not it.keywords \
+            and isinstance(it.args[0], ast.Name):
         bvar = bloop.target.elts[0].id
     elif isinstance(bloop.target, ast.Name) and isinstance(it, ast.Call) and ast.unparse(it.func) == "range" and len(it.args) == 1:
         bvar = bloop.target.id
@@ -1899,12 +1909,24 @@ def decorator_source(repo):
     return ast.unparse(c)
 
 
+def function_text(fn):
+    import copy
+    f2 = copy.deepcopy(fn)
+    f2.body = [st for st in f2.body if not (isinstance(st, ast.Expr) and isinstance(st.value, ast.Constant) and isinstance(st.value.value, str))] or [ast.Pass()]
+    return ast.unparse(f2)
+
+
 def kernel_skeleton(fn, target):
     """the function with the right-hand sides of the assignments to `target` blanked: what a `local` kernel does NOT translate
     (iteration spaces, initial values of loop-carried variables, what the result is used for) is pinned as text instead"""
     import copy
     f2 = copy.deepcopy(fn)
     f2.body = [st for st in f2.body if not (isinstance(st, ast.Expr) and isinstance(st.value, ast.Constant) and isinstance(st.value.value, str))]
+    attr = target[5:] if target.startswith("self_") else None
+    if attr:
+        for n in ast.walk(f2):
+            if isinstance(n, ast.Assign) and len(n.targets) == 1 and ast.unparse(n.targets[0]) == "self." + attr:
+                n.value = ast.Constant("KERNEL")
     aug = any(isinstance(n, ast.AugAssign) and isinstance(n.target, ast.Name) and n.target.id == target for n in ast.walk(f2))
     for n in ast.walk(f2):
         if not aug and isinstance(n, ast.Assign) and len(n.targets) == 1 and isinstance(n.targets[0], ast.Name) and n.targets[0].id == target:
@@ -1993,7 +2015,21 @@ def translate_kernel(repo, spec):
         hit = sorted(w for w in watch if bound.get(w) and not (w == "progress_bar"))
         if hit:
             raise Untranslatable("%s is rebound inside %s" % (", ".join(hit), spec["func"]))
-    if spec.get("pin_skeleton"):
+    if spec.get("kind") == "raises" or spec.get("pairwise") or spec.get("pin_function"):
+        tkey = key + "#text"
+        if pins.get(tkey) != function_text(fn) and os.environ.get("SRCTIE_WRITE_PINS") != "1":
+            raise Untranslatable("the text of %s differs from the pinned one (this kind of kernel is only read at the pinned text)" % spec["func"])
+    if spec.get("outputs_pat"):
+        cb = {}
+        parts_ = spec["func"].split(".")
+        if len(parts_) > 1:
+            cl = [c for c in tree.body if isinstance(c, ast.ClassDef) and c.name == parts_[0]]
+            cb = scope_binders(cl[0].body) if cl else {}
+        for pat_, _nm in spec["outputs_pat"]:
+            attr = pat_.split(".")[-1]
+            if cb.get(attr):
+                raise Untranslatable("the attribute %s is bound at class level (property / descriptor)" % attr)
+    if spec.get("pin_skeleton") or spec.get("kind") == "local":
         sk = kernel_skeleton(fn, spec["target"])
         skey = key + "#skeleton:" + spec["target"]
         if pins.get(skey) != sk and os.environ.get("SRCTIE_WRITE_PINS") != "1":
